@@ -619,7 +619,7 @@ class Interp:
                     try:
                         self.ev_raw(s["e"], env)
                     except Unanalysable as u:
-                        if u.msg != "effects inside an early-return branch":
+                        if u.msg not in ("effects inside an early-return branch", "early return of a non-error value"):
                             raise
                         self.restore(env, snap)
                         rest = {"k": "Block", "stmts": e["stmts"][idx + 1:], "expr": e.get("expr"), "sp": e.get("sp"), "ty": e.get("ty")}
@@ -902,7 +902,12 @@ class Interp:
             # short-circuit: the right operand is evaluated only when the left one is false (||) / true (&&)
             n_facts = len(self.bounds.facts)
             if isinstance(l, BoolV) and isinstance(l.e, Cond):
-                self.learn(l.e if op == "||" else l.e.negate())
+                if op == "||":
+                    for d_ in self.disjuncts(l.e):
+                        self.learn(d_)
+                else:
+                    for d_ in self.conjuncts(l.e):
+                        self.learn(d_.negate())
                 self.assuming(l.e, op == "&&")
             try:
                 r = self.ev(e["r"], env)
@@ -1113,6 +1118,10 @@ class Interp:
             self.trace = old
             if any(it[0] not in ("guard",) for it in sub.items):
                 raise Unanalysable("effects inside an early-return branch", FX.short(e.get("sp")))
+            if isinstance(rv, Enum) and rv.variant in ("Ok", "Some"):
+                # an early *successful* return is not an abort: the function's value is conditional (handled as an
+                # if/else with the rest of the body at function-body level, otherwise outside the fragment)
+                raise Unanalysable("early return of a non-error value", FX.short(e.get("sp")))
             for c1 in self.disjuncts(c):
                 # `if a || b || c { return X }` is three guards in a row (short-circuit order)
                 self.trace.add("guard", c1, rv, FX.short(e.get("sp")), self.fn_stack[-1] if self.fn_stack else "")
@@ -1169,6 +1178,15 @@ class Interp:
     def disjuncts(self, c):
         if isinstance(c, Cond) and c.op == "or" and not c.neg and getattr(c, "parts", None):
             return list(c.parts)
+        if isinstance(c, Cond) and c.op == "and" and c.neg and getattr(c, "parts", None):
+            return [p_.negate() for p_ in c.parts]  # !(a && b && c)  ==  !a || !b || !c
+        return [c]
+
+    def conjuncts(self, c):
+        if isinstance(c, Cond) and c.op == "and" and not c.neg and getattr(c, "parts", None):
+            return list(c.parts)
+        if isinstance(c, Cond) and c.op == "or" and c.neg and getattr(c, "parts", None):
+            return [p_.negate() for p_ in c.parts]
         return [c]
 
     def learn(self, c):
@@ -1469,6 +1487,13 @@ class Interp:
                 self.run_loop(pat, IterV(cur, by_ref_mut=pl), body, env, e)
                 return UNIT
         itv = self.ev(it_expr, env)
+        if isinstance(itv, UserIter):
+            def per_elem(x, pat=pat, body=body):
+                self.bind(pat, x, env)
+                self.run_body(body, env)
+
+            self.user_iter_loop(itv, per_elem, env, e)
+            return UNIT
         itv = self.to_iter(itv, it_expr)
         self.run_loop(pat, itv, body, env, e)
         return UNIT
